@@ -1,10 +1,205 @@
-/- driver for C20 : to be filled in (stub keeps Main.lean compiling) -/
+/- driver for C20 (monitors and log files), Float instantiation of Model/Monitor -/
 import MysticVerif.Basic.Proto
+import MysticVerif.Model.Monitor
 
 namespace MysticVerif.DrvC20
-open MysticVerif
+open MysticVerif MysticVerif.Mon
+
+abbrev M := Mon Float
+
+/-! ### parsing -/
+
+def parsePV : Val → Option (PV Float)
+  | .list [.sym "s", v] => do pure (.sc (← v.asFloat?))
+  | .list (.sym "v" :: vs) => do pure (.vec (← vs.mapM Val.asFloat?))
+  | .list (.sym "m" :: rows) => do pure (.mat (← rows.mapM Val.asFloats?))
+  | _ => none
+
+def parseOptInt : Val → Option (Option Int)
+  | .sym "none" => some none
+  | .int i => some (some i)
+  | _ => none
+
+def parseOptFloat : Val → Option (Option Float)
+  | .sym "none" => some none
+  | v => do pure (some (← v.asFloat?))
+
+def parseBools (v : Val) : Option (List Bool) := do
+  let l ← v.asList?
+  l.mapM Val.asBool?
+
+/-! ### printing -/
+
+def pPV : PV Float → String
+  | .sc v => "(s " ++ pF v ++ ")"
+  | .vec l => pL ("v" :: l.map pF)
+  | .mat l => pL ("m" :: l.map pFs)
+
+def pOI : Option Int → String
+  | none => "none"
+  | some i => toString i
+
+def pOF : Option Float → String
+  | none => "none"
+  | some f => pF f
+
+def pStep (s : Step) : String :=
+  match s.id with
+  | none => s!"({s.i})"
+  | some j => s!"({s.i} {pOI j})"
+
+def pIds : Option (List Step) → String
+  | none => "none"
+  | some l => pL (l.map pStep)
+
+def pFsss (l : List (List (List Float))) : String := pL (l.map pFss)
+
+def pErr (e : Err) : String := "(e " ++ e.str ++ ")"
+
+def pPair (p : PV Float × PV Float) : String := s!"(p {pPV p.1} {pPV p.2})"
+
+def pDump (m : M) : String :=
+  s!"(d {pL (m.x.map pPV)} {pL (m.getY.map pPV)} {pL (m.id.map pOI)} {pNs m.info} {pOF m.k})"
+
+/-! ### the op interpreter: registers hold monitors -/
+
+def getR (rs : Array M) (v : Val) : Option M := do
+  let i ← v.asNat?
+  rs[i]?
+
+def setR (rs : Array M) (v : Val) (m : M) : Option (Array M) := do
+  let i ← v.asNat?
+  if i < rs.size then some (rs.set! i m) else none
+
+/-- one op: new registers and the printed result; `none` = malformed request -/
+def stepOp (rs : Array M) : Val → Option (Array M × String)
+  | .list [.sym "new", r, k, l] => do
+    let k ← parseOptFloat k
+    let iv : Option Nat ← match l with
+      | .sym "nolog" => some none
+      | .int i => if 0 < i then some (some i.toNat) else some none
+      | _ => none
+    let rs ← setR rs r { k := k, interval := iv }
+    pure (rs, "u")
+  | .list [.sym "call", r, x, y, id] => do
+    let m ← getR rs r
+    let x ← parsePV x
+    let y ← parsePV y
+    let id ← parseOptInt id
+    let out := match m.logOf x y id with
+      | none => "u"
+      | some w => s!"(w {w.step} {pOI w.id} {pPV w.y} {pPV w.x})"
+    let rs ← setR rs r (m.call x y id)
+    pure (rs, out)
+  | .list [.sym "info", r, n] => do
+    let m ← getR rs r
+    let rs ← setR rs r (m.addInfo (← n.asNat?))
+    pure (rs, "u")
+  | .list [.sym "len", r] => do
+    let m ← getR rs r
+    pure (rs, s!"(n {m.len})")
+  | .list [.sym "get", r, i] => do
+    let m ← getR rs r
+    match m.getItem (← i.asInt?) with
+    | some p => pure (rs, pPair p)
+    | none => pure (rs, pErr .index)
+  | .list [.sym "slice", d, r, s, e, t] => do
+    let m ← getR rs r
+    let s ← parseOptInt s
+    let e ← parseOptInt e
+    let t ← parseOptInt t
+    let step := t.getD 1
+    if step = 0 then pure (rs, pErr .value) else
+    let rs ← setR rs d (m.slice s e step)
+    pure (rs, "u")
+  | .list [.sym "lidx", d, r, idx] => do
+    let m ← getR rs r
+    let idx ← idx.asInts?
+    match m.fancy (fun n => resolveIdx n idx) with
+    | .ok m' => pure (← setR rs d m', "u")
+    | .error e => pure (rs, pErr e)
+  | .list [.sym "mask", d, r, mask] => do
+    let m ← getR rs r
+    let mask ← parseBools mask
+    match m.fancy (fun n => maskIdx n mask) with
+    | .ok m' => pure (← setR rs d m', "u")
+    | .error e => pure (rs, pErr e)
+  | .list [.sym "add", d, a, b] => do
+    let ma ← getR rs a
+    let mb ← getR rs b
+    pure (← setR rs d (ma.add mb), "u")
+  | .list [.sym "extend", a, b] => do
+    let ma ← getR rs a
+    let mb ← getR rs b
+    pure (← setR rs a (ma.extend mb), "u")
+  | .list [.sym "prepend", a, b] => do
+    let ma ← getR rs a
+    let mb ← getR rs b
+    pure (← setR rs a (ma.prepend mb), "u")
+  | .list [.sym "min", r] => do
+    let m ← getR rs r
+    match m.min with
+    | .ok p => pure (rs, pPair p)
+    | .error e => pure (rs, pErr e)
+  | .list [.sym "dump", r] => do
+    let m ← getR rs r
+    pure (rs, pDump m)
+  | .list [.sym "wraw", r] => do
+    let m ← getR rs r
+    let f := m.writeRaw
+    pure (rs, s!"(f {pIds f.ids} {pL (f.params.map pPV)} {pL (f.cost.map pPV)})")
+  | .list [.sym "wsup", r] => do
+    let m ← getR rs r
+    match m.writeSupport with
+    | some f => pure (rs, s!"(f {pIds f.ids} {pFsss f.params} {pL (f.cost.map pPV)})")
+    | none => pure (rs, pErr .type)
+  | .list [.sym "wconv", r] => do
+    let m ← getR rs r
+    match m.writeConverge with
+    | some f => pure (rs, s!"(f {pIds f.ids} {pFsss f.params} {pL (f.cost.map pPV)})")
+    | none => pure (rs, pErr .type)
+  | .list [.sym "rhist", r] => do
+    let m ← getR rs r
+    match m.readHistory with
+    | some f => pure (rs, s!"(f {pIds f.ids} {pFsss f.params} {pL (f.cost.map pPV)})")
+    | none => pure (rs, pErr .type)
+  | _ => none
+
+def runOps : Array M → List Val → List String → Option (List String)
+  | _, [], acc => some acc.reverse
+  | rs, op :: ops, acc =>
+    match stepOp rs op with
+    | none => none
+    | some (rs', out) => runOps rs' ops (out :: acc)
+
+def codes (v : Val) : Option (List Char) := do
+  let l ← v.asNats?
+  pure (l.map Char.ofNat)
+
+def pCodes (s : List Char) : String := pNs (s.map Char.toNat)
+
+/-- is `line` of the form `printLine s y x` with fields that satisfy the hypotheses of `logline_roundtrip`? -/
+def lineGood (line : List Char) : Bool :=
+  match split3 line with
+  | [a, b, c] =>
+    match a, b with
+    | ' ' :: ' ' :: s, ' ' :: ' ' :: y => tokOK s && tokOK y && tailOK c && printLine s y c == line
+    | _, _ => false
+  | _ => false
 
 def handle : Handler
+  | .sym "prog" :: args => Id.run do
+    let some ops := (kw? args "ops").bind Val.asList? | return "bad-op"
+    let nreg := ((kw? args "nreg").bind Val.asNat?).getD 4
+    match runOps (Array.replicate nreg ({} : M)) ops [] with
+    | some outs => return "ok r=" ++ pL outs
+    | none => return "bad-op"
+  | .sym "split" :: args => Id.run do
+    let some s := (kw? args "s").bind codes | return "bad-op"
+    return "ok p=" ++ pL ((split3 s).map pCodes)
+  | .sym "logline" :: args => Id.run do
+    let some s := (kw? args "s").bind codes | return "bad-op"
+    return s!"ok p={pL ((split3 s).map pCodes)} good={pB (lineGood s)}"
   | _ => "bad-op"
 
 end MysticVerif.DrvC20
